@@ -162,6 +162,24 @@ def build_harness():
     return rc, out
 
 
+BXHDRIVE_RACE = os.path.join(CACHE, "bxhdrive-race")
+
+
+def build_harness_race():
+    """the same harness built with Go's race detector (for the searches that look at what goroutines share)"""
+    if "rrc" in _harness_built:
+        return _harness_built["rrc"], _harness_built["rout"]
+    write_overlay()
+    t0 = time.time()
+    if os.path.exists(BXHDRIVE_RACE):
+        os.remove(BXHDRIVE_RACE)
+    rc, out = sh(["go", "build", "-race", "-overlay", overlay_path(), "-tags", "verif", "-ldflags=-checklinkname=0",
+                  "-o", BXHDRIVE_RACE, "./internal/verifharness"], cwd=REPO, env=GOENV, timeout=3000)
+    log(f"[go] race harness build rc={rc} {time.time()-t0:.1f}s")
+    _harness_built["rrc"], _harness_built["rout"] = rc, out
+    return rc, out
+
+
 def build_model():
     return lake_build(["bxhmodel"])
 
